@@ -26,6 +26,10 @@ type TypeMethod struct {
 
 	// id is go/types' identifier of the method ("" in hand-built models), see InterfaceMethod
 	id string
+
+	// valueOnly marks the methods of a defined interface type: they can be called on a value of the
+	// type but not through a pointer to it (a pointer to an interface has no methods)
+	valueOnly bool
 }
 
 // MethodType represents a type in method signature
@@ -143,6 +147,11 @@ func extractMethodsFromNamedType(named *types.Named) []TypeMethod {
 	// The method set of T itself: besides the methods declared with a value receiver it holds the
 	// methods promoted through embedded pointers, whose own receiver is a pointer
 	valueSet := types.NewMethodSet(named)
+	// A defined interface type is the exception: all its methods are in its own method set, none in *T's
+	valueOnly := types.IsInterface(named)
+	if valueOnly {
+		methodSet = valueSet
+	}
 
 	for i := 0; i < methodSet.Len(); i++ {
 		selection := methodSet.At(i)
@@ -158,6 +167,7 @@ func extractMethodsFromNamedType(named *types.Named) []TypeMethod {
 			Outputs:           extractMethodTypesFromTuple(sig.Results(), false),
 			ReceiverIsPointer: recvIsPointer,
 			id:                method.Id(),
+			valueOnly:         valueOnly,
 		})
 	}
 
